@@ -16,7 +16,7 @@ RECURSIVE JoinS(_)
 JoinS(S) == IF S = {} THEN "" ELSE LET x == CHOOSE y \in S : TRUE IN x \o (IF S \ {x} = {} THEN "" ELSE "+") \o JoinS(S \ {x})
 
 AbsPath(p) == IF p \in GoodScopes THEN p ELSE IF p \in {"unlistedPrefix", "unlistedExt", "unlistedDomainCase", "unlistedOther", "unlistedPort"} THEN "unlisted" ELSE "malformed"
-AbsBName(b) == IF b \in {"unlistedName", "caseName"} THEN "nX" ELSE b
+AbsBName(b) == IF b \in {"unlistedName", "caseName", "paddedName"} THEN "nX" ELSE b
 ExpSel(i) == IF i.doc.kind = "oci" THEN SelectOCI(i.doc, AbsPath(i.path)) ELSE SelectBlob(i.doc, AbsBName(i.bname))
 
 ViolValid(line) ==
